@@ -304,6 +304,17 @@ pub fn drive_undoall() -> Vec<String> {
         ("autofill cols", Box::new(|m| m.auto_fill_columns(&Area { sheet: 0, row: 1, column: 1, width: 2, height: 2 }, 6))),
         ("set_user_array_formula", Box::new(|m| m.set_user_array_formula(0, 10, 4, 2, 2, "=A1:B2*2"))),
         ("locale", Box::new(|m| m.set_locale("de"))),
+        ("set_cell_link", Box::new(|m| m.set_cell_link(0, 1, 1, crate::types::Link::External { target: "https://a.b".to_string(), tooltip: None }, None))),
+        ("set_cell_link label", Box::new(|m| m.set_cell_link(0, 11, 1, crate::types::Link::Internal { location: "Sheet2!A1".to_string(), tooltip: Some("t".to_string()) }, Some("go")))),
+        ("delete_cell_link", Box::new(|m| m.delete_cell_link(0, 7, 1))),
+        ("paste_csv", Box::new(|m| m.paste_csv_string(&Area { sheet: 0, row: 1, column: 1, width: 1, height: 1 }, "7\t8\n9\t=A1"))),
+        ("clear formatting", Box::new(|m| m.range_clear_formatting(&Area { sheet: 0, row: 7, column: 1, width: 1, height: 1 }))),
+        ("copy paste", Box::new(|m| { m.set_selected_sheet(0)?; m.set_selected_range(1, 1, 2, 2)?; let c = m.copy_to_clipboard()?; m.set_selected_cell(5, 5)?; m.paste_from_clipboard(0, (1, 1, 2, 2), &c.data, false) })),
+        ("cut paste", Box::new(|m| { m.set_selected_sheet(0)?; m.set_selected_range(1, 1, 2, 2)?; let c = m.copy_to_clipboard()?; m.set_selected_cell(5, 5)?; m.paste_from_clipboard(0, (1, 1, 2, 2), &c.data, true) })),
+        ("cut paste link", Box::new(|m| { m.set_selected_sheet(0)?; m.set_selected_range(7, 1, 7, 1)?; let c = m.copy_to_clipboard()?; m.set_selected_cell(11, 3)?; m.paste_from_clipboard(0, (7, 1, 7, 1), &c.data, true) })),
+        ("cut paste spill", Box::new(|m| { m.set_selected_sheet(0)?; m.set_selected_range(8, 1, 8, 1)?; let c = m.copy_to_clipboard()?; m.set_selected_cell(10, 5)?; m.paste_from_clipboard(0, (8, 1, 8, 1), &c.data, true) })),
+        ("new_sheet", Box::new(|m| m.new_sheet())), ("sheet color", Box::new(|m| m.set_sheet_color(0, &crate::types::Color::Rgb("#FF0000".to_string())))),
+        ("grid lines", Box::new(|m| m.set_show_grid_lines(0, false))),
     ];
     for (name, op) in ops.iter() {
         let mut m = make();
